@@ -1476,6 +1476,29 @@ impl Exec {
                 }
             }
         }
+        // valid main-chain blocks that sit exactly on a consensus limit
+        {
+            let snap = self.node.shared.snapshot();
+            if let Some(ti) = self.w.by_hash.get(&snap.tip_hash()) {
+                let cfg = &self.w.cfg;
+                for bi in self.w.st(*ti).chain.iter().skip(1) {
+                    let b = &self.w.blocks[*bi];
+                    let uncle_ids: usize = b.view.uncles().into_iter().map(|u| u.data().proposals().len()).sum();
+                    if (b.view.data().as_slice().len() - 10 * uncle_ids) as u64 == cfg.max_block_bytes {
+                        self.res.probes.inc("attached_block_exactly_at_size_limit");
+                    }
+                    if b.view.data().proposals().len() as u64 == cfg.max_block_proposals {
+                        self.res.probes.inc("attached_block_exactly_at_proposal_limit");
+                    }
+                    if !b.cycles.is_empty() && b.cycles.iter().all(|c| c.is_some()) && b.cycles.iter().map(|c| c.unwrap()).sum::<u64>() == cfg.max_block_cycles {
+                        self.res.probes.inc("attached_block_exactly_at_cycle_limit");
+                    }
+                    if b.view.extension().map(|e| e.raw_data().len() == 96).unwrap_or(false) {
+                        self.res.probes.inc("attached_block_with_longest_legal_extension");
+                    }
+                }
+            }
+        }
         for b in self.w.blocks.iter() {
             if let Some(why) = &b.invalid {
                 if self.delivered_set.contains(&b.idx) {
@@ -1760,6 +1783,20 @@ pub fn compare_state<S: ChainStore>(w: &World, store: &S, snap: Option<&Snapshot
             if let Some(cy) = &ext.cycles {
                 if cy.len() != b.fees.len() {
                     return err("ext_cycles_len", format!("block {n}"));
+                }
+                if std::env::var_os("SIM_TRACE_CYCLES").is_some() {
+                    eprintln!("[cycles] block {n}: node {:?} model {:?}", cy, b.cycles);
+                }
+                // recorded cycles = the model's cost table (blocks verified with scripts disabled
+                // record 0 cycles: assume-valid prefix)
+                if b.cycles.len() == cy.len() && !(w.assume_valid && cy.iter().all(|c| *c == 0)) {
+                    for (k, (have, want)) in cy.iter().zip(b.cycles.iter()).enumerate() {
+                        if let Some(want) = want {
+                            if have != want {
+                                return err("ext_cycles", format!("block {n} tx {}: recorded {have} cycles, model {want}", k + 1));
+                            }
+                        }
+                    }
                 }
             }
         }
